@@ -119,7 +119,7 @@ pub fn search(case: &str, seed: u64, open: &[String]) -> Option<SearchResult> {
         "c12_parse" => Box::new(c12::parse_inputs(seed)),
         "c12_multipart" => Box::new(c12::multipart_inputs(seed)),
         "c15_quoted" | "c17_escape" => Box::new(strings::string_inputs(seed)),
-        "c15_values" => Box::new(strings::value_inputs(seed)),
+        "c15_values" => Box::new(strings::value_inputs(seed, open)),
         "c17_input_value" | "c17_sdl" => Box::new(c17_sdl::inputs(seed, open)),
         "c17_schema" => Box::new(c17_sdl::schema_inputs(seed, open)),
         _ => return None,
